@@ -430,3 +430,7 @@ def r4(cx):
             if body.root != JL + 'remove':
                 cx.violation(body.root, 'clear-elsewhere', 'jobs.clear() outside JobList::remove', loc=body.loc(t))
     cx.sample({'slab_calls': len(calls), 'clear_sites': n_clear})
+
+import witness
+witness.add(RS, 'C12.R2w', ['c12_jobrefmut_assign', 'c12_jobrefmut_pid'],
+            'compile-fail witness: a listed job\'s state or pid cannot be assigned through JobRefMut (E0594); the reading twin compiles')
